@@ -290,7 +290,9 @@ def div(a, b):
     if isinstance(b, Fraction):
         return mul(a, 1 / b)  # ZeroDivisionError on a concrete zero, like Python
     if isinstance(a, Fraction) and a == 0:
-        # 0/b: b != 0 is a definedness assumption collected by poly.Conv when b is converted
+        # 0/b: b != 0 is a definedness assumption collected by poly.Conv when b is converted ...
+        if isinstance(b, Sym) and b.op == "fn" and b.args[0] == "sqrt" and isinstance(b.args[1], Fraction) and b.args[1] > 0:
+            return Fraction(0)  # ... except for a plainly non-zero constant such as sqrt(2)
         return Sym("div", (a, b))
     return Sym("div", (a, b))
 
